@@ -331,7 +331,12 @@ def case_opts(W, cfg):
     r_def = gu_def(grid, da, axis=[("X",)])
     gu_part = as_grid_ufunc(signature=sig, **base)(fn)
     r_mixed = gu_part(grid, da, axis=[("X",)], **extra)
-    for nm, r in (("call", r_call), ("definition", r_def), ("definition+call", r_mixed)):
+    # the Grid method is the same call; and a call-time value overrides the one bound at definition
+    r_method = grid.apply_as_grid_ufunc(fn, da, axis=[("X",)], signature=sig, **base, **extra)
+    opposite = dict(pad_before_func=True) if opt == "pad_after" else (dict(dask="forbidden") if opt == "dask" else dict(dask="forbidden", map_overlap=False))
+    gu_opp = as_grid_ufunc(signature=sig, **base, **opposite)(fn)
+    r_over = gu_opp(grid, da, axis=[("X",)], **extra)
+    for nm, r in (("call", r_call), ("definition", r_def), ("definition+call", r_mixed), ("grid-method", r_method), ("call-overrides-definition", r_over)):
         if opt != "pad_after":
             W.require("opts-lazy:%s:%s" % (opt, nm), hasattr(r.data, "dask"), "result not lazy")
             r = r.compute(scheduler="synchronous")
@@ -365,13 +370,30 @@ def case_reject(W, cfg):
                     W.require("wrong-position-rejected", True)
                 except Exception as e:  # noqa
                     W.require("wrong-position-rejected", False, "%s: raised %s instead of ValueError: %s" % (tpl, type(e).__name__, str(e)[:100]))
-        # wrong number of inputs
+        # wrong number of inputs / of axis entries / of axes inside an entry
+        variants = []
         if len(args) > 1:
-            try:
-                apply_as_grid_ufunc(Recorder(W, [len(x) for x in ins], out_core_shapes), *args[:-1], axis=axis[:-1], grid=grid, signature=sig_str(tpl))
-                W.require("wrong-arity-rejected", False, "accepted %d inputs for %s" % (len(args) - 1, sig_str(tpl)))
-            except ValueError:
-                W.require("wrong-arity-rejected", True)
+            variants.append(("one input and its axis entry fewer", args[:-1], axis[:-1]))
+            variants.append(("one input fewer, axis entries as in the signature", args[:-1], axis))
+        variants.append(("one input and axis entry more", list(args) + [args[-1]], list(axis) + [axis[-1]]))
+        variants.append(("one input more, axis entries as in the signature", list(args) + [args[-1]], axis))
+        variants.append(("last axis entry names one axis fewer", args, list(axis[:-1]) + [tuple(axis[-1])[:-1]]))
+        spare = [r for r in ("X", "Y", "Z") if r not in axis[-1]]
+        if spare:
+            variants.append(("last axis entry names one axis more", args, list(axis[:-1]) + [tuple(axis[-1]) + (spare[0],)]))
+        for what, bargs, baxis in variants:
+            for way in ("function", "method"):
+                rec = Recorder(W, [len(x) for x in ins], out_core_shapes)
+                try:
+                    if way == "function":
+                        apply_as_grid_ufunc(rec, *bargs, axis=baxis, grid=grid, signature=sig_str(tpl))
+                    else:
+                        grid.apply_as_grid_ufunc(rec, *bargs, axis=baxis, signature=sig_str(tpl))
+                    W.require("wrong-arity-rejected", False, "%s (%s): accepted for %s" % (what, way, sig_str(tpl)))
+                except (ValueError, TypeError):
+                    W.require("wrong-arity-rejected", True)
+                except Exception as e:  # noqa
+                    W.require("wrong-arity-rejected", False, "%s (%s): %s instead of ValueError/TypeError for %s: %s" % (what, way, type(e).__name__, sig_str(tpl), str(e)[:100]))
 
 
 def finding_key(cfg, v):
